@@ -60,6 +60,7 @@ def generate(rng, tier):
         rng.shuffle(order)
     return {"seed": rng.getrandbits(31), "atoms": atoms, "bonds": bonds if bmode != "absent" else None, "scheme": scheme, "attr_order": order,
             "read_fault": rng.random() if rng.random() < 0.25 else None,
+            "prior": rng.random() < 0.5,
             "extra_ws": rng.random() < 0.3, "declaration": rng.random() < 0.3, "extras": rng.random() < 0.3,
             "chunks": [{"chunk": c, "seed": rng.getrandbits(16)} for c in rng.sample(["whole", "one", "prime", "random", "random"], 3)]}
 
@@ -111,6 +112,16 @@ def execute(spec, ctx):
     ctx.count("id_scheme_%s" % spec["scheme"])
     if not spec["bonds"]:
         ctx.count("documents_without_bonds")
+    if spec.get("prior") and len(spec["atoms"]) > 1:
+        # history inside the run: another document that uses the SAME id strings for other atoms is loaded first (whatever the
+        # loader keeps between calls must not leak into the next document)
+        pa = [[a[0], spec["atoms"][(i + 1) % len(spec["atoms"])][1]] + [round(x + 1.25, 6) for x in a[2:]] for i, a in enumerate(reversed(spec["atoms"]))]
+        pspec = dict(spec, atoms=pa, bonds=[list(b) for b in (spec["bonds"] or [])][::-1] if spec["bonds"] is not None else None)
+        ptext = readers.write_cml(pa, pspec["bonds"], spec["scheme"], attr_order=spec["attr_order"], extra_ws=False)
+        fh = fs.reader(ptext, name="prior.cml", script={"chunk": "whole"})
+        a = _load(ctx, "earlier document with the same ids in another order", lambda: Atoms.load(fh, filetype="cml"))
+        _check(ctx, a, pspec, "earlier document with the same ids in another order")
+        ctx.count("earlier_document_loaded")
     results = []
     for k, script in enumerate(spec["chunks"]):
         fh = fs.reader(text, name="doc.cml", script=script)
